@@ -1051,7 +1051,7 @@ class Evaluator:
             if f in ("abs", "min", "max", "sum"):
                 flat = args[0] if len(args) == 1 and not isinstance(args[0], int) else args
                 flat = self._iterate(flat, n) if not isinstance(flat, list) else flat
-                if not all(isinstance(x, int) for x in flat):
+                if not all(isinstance(x, int) for x in flat) and not (self.float_arith and all(isinstance(x, (int, float)) and not isinstance(x, bool) for x in flat)):
                     raise NotEvaluable(f"{f}() over non-integers")
                 if f == "abs":
                     return abs(args[0])
